@@ -91,6 +91,7 @@ type Lemma struct {
 }
 
 type ContractDB struct {
+	ZeroInit map[string][2]string // named type -> (ghost field, prelude constant) established for its zero value
 	C      map[string]*Contract
 	Types  map[string]*TypeOverride
 	Lemmas []*Lemma
@@ -109,7 +110,7 @@ func splitLabel(s string) (string, string) {
 }
 
 func loadContracts(dir string) (*ContractDB, error) {
-	db := &ContractDB{C: map[string]*Contract{}, Types: map[string]*TypeOverride{}}
+	db := &ContractDB{C: map[string]*Contract{}, Types: map[string]*TypeOverride{}, ZeroInit: map[string][2]string{}}
 	files, _ := filepath.Glob(filepath.Join(dir, "*.gocv"))
 	sort.Strings(files)
 	for _, f := range files {
@@ -154,6 +155,12 @@ func (db *ContractDB) loadFile(fn string) error {
 		case "package":
 			pkg = rest
 			cur, curLemma = nil, nil
+		case "zeroinit":
+			f := strings.Fields(rest)
+			if len(f) != 3 {
+				return fmt.Errorf("%s:%d: zeroinit <type> <ghost> <constant>", fn, ln)
+			}
+			db.ZeroInit[f[0]] = [2]string{f[1], f[2]}
 		case "type":
 			// type path.Name = f1:Sort f2:Sort
 			parts := strings.SplitN(rest, "=", 2)
